@@ -839,8 +839,10 @@ where
 
         if let Some(max) = self.max_capacity {
             if new_weight as u64 > max {
-                // The candidate is too big to fit in the cache. Reject it.
-                self.cache.remove(&Arc::clone(&kh.key));
+                // The candidate is too big to fit in the cache. Reject it (unless the
+                // key has been given a newer entry in the meantime).
+                self.cache
+                    .remove_if(&kh.key, |_, v| TrioArc::ptr_eq(v, &entry));
                 return;
             }
         }
@@ -876,8 +878,10 @@ where
             }
             AdmissionResult::Rejected { skipped_nodes: s } => {
                 skipped_nodes = s;
-                // Remove the candidate from the cache (hash map).
-                self.cache.remove(&Arc::clone(&kh.key));
+                // Remove the candidate from the cache (hash map), unless the key has
+                // been given a newer entry in the meantime.
+                self.cache
+                    .remove_if(&kh.key, |_, v| TrioArc::ptr_eq(v, &entry));
             }
         };
 
